@@ -145,6 +145,13 @@ impl Ctx {
     pub fn wants_sample(&self, class: &str) -> bool {
         self.counting && self.samples.get(class).map(|v| v.len() < 2).unwrap_or(true)
     }
+    /// the distinct non-trivial fingerprints collected so far and the number that did not fit the cap
+    pub fn fingerprints(&self) -> (Vec<u64>, u64) {
+        (self.fps.iter().copied().collect(), self.fp_overflow)
+    }
+    pub fn samples_json(&self) -> serde_json::Value {
+        serde_json::json!(self.samples)
+    }
     /// the case did not satisfy a generator precondition
     pub fn reject(&mut self) {
         self.case_rejected = true;
